@@ -219,7 +219,7 @@ def match_known(known, prop, head, item, ratio, theta, lin, gap=99999):
     AND the error ratio is within the bound recorded for the finding (possibly a law in theta / pi-theta)"""
     for k in known:
         if k["property"] != prop: continue
-        if not _in(head["g"].get("k"), k.get("group")): continue
+        if not _in((head.get("g") or {}).get("k") if isinstance(head.get("g"), dict) else head.get("g"), k.get("group")): continue
         if not _in(head.get("sc"), k.get("scalar")): continue
         if not _in(head["e"], k.get("event")): continue
         if not _in(item, k.get("item")): continue
@@ -230,7 +230,7 @@ def match_known(known, prop, head, item, ratio, theta, lin, gap=99999):
         bound = k.get("max_ratio_milli", SAT)
         if "envelope" in k:
             # measured error envelope of the defect: bound per (group, scalar, event, item, theta bucket, gap bucket)
-            key = "|".join([str(head["g"].get("k")), str(head.get("sc")), head["e"], item, str(bucket(theta)), str(bucket(gap))])
+            key = "|".join([str((head.get("g") or {}).get("k") if isinstance(head.get("g"), dict) else head.get("g")), str(head.get("sc")), head["e"], item, str(bucket(theta)), str(bucket(gap))])
             if key not in k["envelope"]: continue
             bound = k["envelope"][key]
         law = k.get("law")     # error bound that scales with the input
@@ -272,7 +272,7 @@ class Report:
             cell = (h["e"], gk, h.get("sc"), max(-60, r["theta"] // 3) if r["theta"] > -99999 else h.get("st", ""), max(-40, r["lin"] // 5) if r["lin"] > -99999 else "z")
             self.cells.add(cell)
             if len(self.samples) < 3 and self.events % 97 == 1:
-                self.samples.append({"event": h["e"], "group": h["g"], "stratum": h.get("st"), "ratios_milli": dict(r["items"]),
+                self.samples.append({"event": h["e"], "group": h.get("g"), "stratum": h.get("st"), "ratios_milli": dict(r["items"]), "config": {k: h[k] for k in ("N", "d", "k", "closed") if k in h},
                                      "input_bits": {k: h[k] for k in ("a", "t") if k in h}})
             for item, ratio in r["items"]:
                 if not judged(h["e"], item): continue
